@@ -77,6 +77,64 @@ def generate():
             "standard_first": sorted({tuple(r["key"]) for r in rows if r["std"]})}
 
 
+# ---------------------------------------------------------------- inventory of the modelled code
+# The functions whose behaviour Model/Singleton.lean writes down (qualified name per file). Their
+# normalised-AST hashes are compared with a committed baseline on every run: a difference does not
+# fail anything (a rewrite may be harmless) but escalates the run to larger counts and is listed in
+# the evidence; a function that is not found any more is listed as `missing`.
+COVERED = {
+    "src/spox/_standard.py": ["StandardNode.to_singleton_onnx_model", "StandardNode.infer_output_types_onnx",
+                              "StandardNode.infer_output_types", "_strip_dim_symbol_shape", "_strip_dim_symbol",
+                              "_make_dummy_subgraph"],
+    "src/spox/_node.py": ["Node.__init__", "Node.inference", "Node.to_onnx", "Node._init_output_vars", "Node.min_input", "Node.min_output"],
+    "src/spox/_fields.py": ["BaseVars.__post_init__", "BaseVars._get_field_type", "BaseVars._flatten", "BaseVars.get_vars", "BaseVars.fully_typed"],
+    "src/spox/_type_system.py": ["Type._from_onnx", "Tensor._to_onnx", "Tensor.shape", "Sequence._to_onnx", "Optional._to_onnx"],
+    "src/spox/_shape.py": ["Natural.from_simple", "Natural.simple_from_onnx", "Natural.from_onnx", "Unknown.to_simple",
+                           "Constant.to_simple", "Shape.from_simple", "Shape.from_onnx", "Shape.to_simple"],
+    "src/spox/opset/ai/onnx/v17.py": ["_Compress.infer_output_types", "_Loop.infer_output_types"],
+}
+
+
+def _strip_doc(fn):
+    body = fn.body
+    if body and isinstance(body[0], ast.Expr) and isinstance(getattr(body[0], "value", None), ast.Constant) and isinstance(body[0].value.value, str):
+        fn = ast.FunctionDef(name=fn.name, args=fn.args, body=body[1:] or [ast.Pass()], decorator_list=fn.decorator_list,
+                             returns=None, type_comment=None)
+    return fn
+
+
+def covered_hashes() -> dict:
+    """{"file:Qual.name": sha1[:12] of the normalised AST (no docstring, no positions, no annotations
+    of the return type) | "missing" | "unparsable"}"""
+    import hashlib
+
+    out = {}
+    for rel, names in COVERED.items():
+        try:
+            tree = ast.parse((REPO / rel).read_text(), filename=rel)
+        except (SyntaxError, OSError):
+            for n in names:
+                out[f"{rel}:{n}"] = "unparsable"
+            continue
+        found = {}
+        for node in tree.body:
+            if isinstance(node, (ast.FunctionDef, ast.AsyncFunctionDef)):
+                found[node.name] = node
+            elif isinstance(node, ast.ClassDef):
+                for st in node.body:
+                    if isinstance(st, (ast.FunctionDef, ast.AsyncFunctionDef)):
+                        found.setdefault(f"{node.name}.{st.name}", st)
+        for n in names:
+            fn = found.get(n)
+            out[f"{rel}:{n}"] = "missing" if fn is None else hashlib.sha1(
+                ast.dump(_strip_doc(fn), annotate_fields=False, include_attributes=False).encode()).hexdigest()[:12]
+    return out
+
+
 if __name__ == "__main__":
     import json
+    import sys
+    if "--baseline" in sys.argv:  # refresh harness/c05_source_baseline.json after validating the check on this tree
+        from pathlib import Path
+        Path(__file__).resolve().parent.parent.joinpath("harness", "c05_source_baseline.json").write_text(json.dumps(covered_hashes(), indent=1, sort_keys=True) + "\n")
     print(json.dumps({k: v for k, v in generate().items() if k != "rows"}, indent=1))
